@@ -902,7 +902,43 @@ def _mpis_names(prog, K, after=None):
     return None
 
 
-def check_copy_carries_serialised(rep, prog, rid):
+def dispatched_material(prog, module, clsname, setter, attr, enum=('pgpy.constants', 'PubKeyAlgorithm')):
+    """Class names of the objects `clsname.<setter>(member)` leaves in `self.<attr>` for every integer member of the enum
+    (checker-side finite-point evaluation, sa.ceval): the material classes a dispatching property setter can choose, its
+    fallback included.  None entries (nothing stored at that member) are dropped."""
+    from . import ceval
+    ci = prog.cls(module, clsname)
+    en = prog.cls(*enum)
+    if ci is None or en is None:
+        raise AnalysisError('%s / %s vanished' % (clsname, enum[1]))
+    g = ci.find_method(setter)
+    if g is None:
+        raise AnalysisError('%s.%s vanished' % (clsname, setter))
+    ev = ceval.Evaluator(prog)
+    out = {}
+    for name, val in sorted(en.enum_members().items()):
+        if not isinstance(val, int) or isinstance(val, bool):
+            continue
+        o = ceval.Obj(ci, {})
+        try:
+            ev.reset()
+            ev.call(g, o, (val,))
+        except (ceval.NoEval, ceval.Raised, ceval.Diverged) as e:
+            raise AnalysisError('%s.%s cannot be evaluated at %s: %s' % (clsname, setter, name, e))
+        v = o.attrs.get(attr)
+        if v is None:
+            try:
+                v = ev.get(o, attr)          # stored through a property setter (self._signature ...)
+            except (ceval.NoEval, ceval.Raised, ceval.Diverged):
+                v = None
+        if isinstance(v, ceval.Obj):
+            out[name] = v.cls.name
+    if not out:
+        raise AnalysisError('%s.%s stores no %s object at any member of %s' % (clsname, setter, attr, enum[1]))
+    return g, out
+
+
+def check_copy_carries_serialised(rep, prog, rid, roots=None):
     """The octets of the public key material enter the fingerprint, so a copy must serialise to the same octets: `__copy__` of
     every key-material class and of every field class its serialised attributes hold (ECPoint, ...) carries each attribute
     the serialiser reads over from the source object - it is not recomputed from the value, defaulted or normalised.
@@ -910,9 +946,20 @@ def check_copy_carries_serialised(rep, prog, rid):
     Decided on interpreter values: the attributes read are those occurring in the interpreted serialiser's terms and branch
     conditions; the copy is the object `__copy__` returns, with its stores / setattr calls (super().__copy__ chains inlined)."""
     from . import tables
-    f, tbl = tables.keymaterial_table(prog)
     fields = prog.module('pgpy.packet.fields')
     todo, seen = [], set()
+    if roots is not None:
+        # explicit domain: [(class name, what it is)] - every class is its own serialiser
+        for cn, what in roots:
+            K = fields.classes.get(cn)
+            if K is None:
+                raise AnalysisError('material class %s not found' % cn)
+            if K.name not in seen:
+                seen.add(K.name)
+                todo.append((K, K, what))
+        tbl = {}
+    else:
+        f, tbl = tables.keymaterial_table(prog)
     for (pub, a), cn in sorted(tbl.items(), key=lambda kv: (not kv[0][0], kv[1])):
         K = fields.classes.get(cn)
         if K is None:
@@ -921,6 +968,15 @@ def check_copy_carries_serialised(rep, prog, rid):
             seen.add(K.name)
             sib = fields.classes.get(tbl.get((True, a))) if not pub else K
             todo.append((K, sib, 'key material'))
+    # the container chosen for algorithms without a key material class is copied (and fingerprinted) like any other
+    fb = tables.keymaterial_fallbacks(prog) if roots is None else {}
+    for pub in ((True, False) if roots is None else ()):
+        K = fields.classes.get(fb[pub])
+        if K is None:
+            raise AnalysisError('fallback key material class %s not found' % fb[pub])
+        if K.name not in seen:
+            seen.add(K.name)
+            todo.append((K, fields.classes.get(fb[True]) if not pub else K, 'key material of an unimplemented algorithm'))
     n = 0
     while todo:
         K, reads_of, what = todo.pop(0)
@@ -972,8 +1028,9 @@ def check_copy_carries_serialised(rep, prog, rid):
             n += 1
             rep.check(not bad, rid, '%s.__copy__' % K.name,
                       'copy carries %s%s' % (sorted(R), '; NOT carried from the source: %s' % ['%s = %s' % (a, carried.get(a)) for a in bad] if bad else ''),
-                      'a copy must serialise to the same octets as its source (%s enters the fingerprint): every attribute the serialiser reads '
-                      'must be carried over from the source object, not recomputed or defaulted' % what, where=cp.where,
+                      'a copy must serialise to the same octets as its source (%s %s): every attribute the serialiser reads '
+                      'must be carried over from the source object, not recomputed or defaulted'
+                      % (what, 'enters the fingerprint' if roots is None else 'is exported with the key'), where=cp.where,
                       expected={a: '%s.%s' % (first, a) for a in sorted(R)}, found={a: carried.get(a) for a in sorted(R)},
                       detail='copy carries every serialised attribute %s from the source (%s)' % (sorted(R), what))
     return n
